@@ -158,10 +158,14 @@ def make_body(verts, edges, limits, mutate=False):
         G = nx.Graph()
         G.add_nodes_from(verts)
         G.add_edges_from(enumr.fresh_edges(edges[:-1] if mutate else edges))
+        if mutate and mutate is not True:
+            G.add_edge(*mutate)              # "rewired" history: a pair that is no edge of the final graph
         out = None
         for step, lim in enumerate(limits):
             if mutate and step == 1:
-                G.add_edge(*edges[-1])       # the graph grows between the two calls: the final graph has `edges`
+                if mutate is not True:
+                    G.remove_edge(*mutate)   # ... is replaced by the last edge: same vertex and edge counts
+                G.add_edge(*edges[-1])       # the graph changes between the two calls: the final graph has `edges`
             out = MPCC(G, lim) if lim is not None else MPCC(G)
         return (sorted(out.nodes()), sorted(tuple(sorted(e)) for e in out.edges()),
                 {tuple(sorted(e)): out.edges[e].get("clique") for e in out.edges()}, out is G)
@@ -227,6 +231,12 @@ def run_instance(inst, tier):
     runs = [(ls, False) for ls in inst["limit_sets"]]
     if inst["second_call"] and len(edges) >= 2:
         runs += [([0, 0], True), ([0, 3], True)]     # cover, add the last edge, cover again
+        eset = set(edges)
+        spare = [p for p in itertools.combinations(sorted(verts), 2) if p not in eset]
+        if spare:
+            # cover, move one edge (same number of vertices and edges before and after), cover again
+            runs += [([0, 0], spare[0]), ([3, 0], spare[-1])]
+            res.flags.add("rewired-between-calls")
     for limits, mutate in runs:
         flagbox = {}
         limit = limits[-1] or 0
@@ -251,7 +261,7 @@ def run_instance(inst, tier):
         if first:
             (key, msg), choices, calls = first[0]
             res.violation(key, f"vertices={verts} edges={edges} limits={limits}"
-                          f"{' (last edge added between the two calls)' if mutate else ''} order#{choices}: {msg}",
+                          f"{'' if not mutate else ' (last edge added between the two calls)' if mutate is True else f' (edge {mutate} replaced by the last edge between the two calls)'} order#{choices}: {msg}",
                           {"n": n, "edges": inst["edges"], "labels": inst["labels"]}, limits=limits, mutate=mutate,
                           choices=choices, shuffled_order=[c[1] for c in calls if c[0] == "shuffle"])
     if overlapping:
